@@ -116,10 +116,19 @@ GCheckedIn(ids, c) == Cardinality({a \in KeyperSetOf(c) : ids[a] # NoKey})
 IntendedPowermap(ids, c) ==
     [k \in AllKeys |->
         10 * Cardinality({a \in KeyperSetOf(c) : IF ids[a] = NoKey THEN k = NoVal ELSE k = ids[a]})]
-IntendedValidators(ids, post) ==
+(* whether configuration i ought to be started by now, from the GHOST reports (not from the
+   application's own `started` flag): a threshold of the keypers of its predecessor (of itself for
+   the first one) has reported a block at or after its activation block. Reports only grow, so the
+   condition is monotone and EndBlock evaluates it at every block. *)
+GStarted(g, cfgs, i) ==
+    LET c == cfgs[i]
+        prev == cfgs[IF i > 1 THEN i - 1 ELSE 1]
+        rep == {a \in ToSet(prev.keypers) : g.seen[a] # -1 /\ g.seen[a] >= c.act}
+    IN Cardinality(rep) >= prev.thr
+IntendedValidators(g, post) ==
     LET ok == {i \in DOMAIN post.configs :
-                 post.configs[i].started /\ GCheckedIn(ids, post.configs[i]) >= RequiredCheckIns(post.configs[i])}
-    IN IF ok = {} THEN Genesis.vals ELSE IntendedPowermap(ids, post.configs[Max(ok)])
+                 GStarted(g, post.configs, i) /\ GCheckedIn(g.ids, post.configs[i]) >= RequiredCheckIns(post.configs[i])}
+    IN IF ok = {} THEN Genesis.vals ELSE IntendedPowermap(g.ids, post.configs[Max(ok)])
 
 Total(pm) == FoldSet(LAMBDA k, acc : acc + pm[k], 0, AllKeys)
 
@@ -131,9 +140,20 @@ C12_Updates(g, pre, kind, tx, r, post) ==
       /\ \A i, j \in DOMAIN r.updates : i < j => KeyPos(r.updates[i].key) < KeyPos(r.updates[j].key)
       /\ \A i \in DOMAIN r.updates : r.updates[i].power >= 0
       /\ \A i \in DOMAIN r.updates : r.updates[i].power = 0 => g.tm[r.updates[i].key] > 0
-      /\ tm2 = IntendedValidators(g.ids, post)
+      /\ tm2 = IntendedValidators(g, post)
       /\ tm2 # g.tm => 3 * (Total(tm2) - tm2[NoVal]) > 2 * Total(tm2)
       /\ Total(tm2) > 0
+
+(* which check-ins count for "has checked in with key k": the first well-formed check-in of a member
+   of some accepted configuration, and, once the check-in-update fork is active for the block being
+   built, every later one (a key change). Stated from the genesis fork parameters and the ghost, not
+   from the application's Identities table. *)
+C12_CheckIn(g, pre, kind, tx, r, post) ==
+    (kind = "tx" /\ tx.k = "checkin" /\ tx.bad = "" /\ tx.s \in Addrs /\ <<tx.s, tx.n>> \notin g.nonces) =>
+        LET already == g.ids[tx.s] # NoKey
+            forkActive == Genesis.forkOn /\ pre.height + 1 >= Genesis.forkH
+            member == \E i \in DOMAIN pre.configs : tx.s \in ToSet(pre.configs[i].keypers)
+        IN (r.code = CodeOk) <=> (member /\ (~already \/ forkActive))
 
 ----------------------------------------------------------------------------
 (* C10, single-run part: refused transactions are answered with an error and
@@ -167,7 +187,7 @@ Mask(s, x) == [s EXCEPT !.nonces = [a \in Addrs |-> IF a = x.s THEN <<>> ELSE s.
 
 
 MonitorNames == {"C11_Accept", "C11_ConfigsStable", "C11_OneVote", "C11_NonceOnce", "C11_EonFresh",
-                 "C11_Restart", "C11_Started", "C12_Updates", "C10_Refused"}
+                 "C11_Restart", "C11_Started", "C12_Updates", "C12_CheckIn", "C10_Refused"}
 
 Holds(name, g, pre, kind, tx, r, post) ==
     CASE name = "C11_Accept"        -> C11_Accept(g, pre, kind, tx, r, post)
@@ -178,6 +198,7 @@ Holds(name, g, pre, kind, tx, r, post) ==
       [] name = "C11_Restart"       -> C11_Restart(g, pre, kind, tx, r, post)
       [] name = "C11_Started"       -> C11_Started(g, pre, kind, tx, r, post)
       [] name = "C12_Updates"       -> C12_Updates(g, pre, kind, tx, r, post)
+      [] name = "C12_CheckIn"       -> C12_CheckIn(g, pre, kind, tx, r, post)
       [] name = "C10_Refused"       -> C10_Refused(g, pre, kind, tx, r, post)
 
 Failed(g, pre, kind, tx, r, post) ==
